@@ -45,10 +45,12 @@ def py_strip(s):
         i += 1
     return bytes(out)
 
-def oracle_script(s, out):
+def oracle_script(s, out, strict=False):
     """dumb terminal, default format, verbosity NORMAL, valid sequence, unique NUL-free descriptions:
-    split the real StatusPrinter's stdout into blocks; returns list of complaints"""
+    split the real StatusPrinter's stdout into blocks; returns list of complaints.  strict: a status line that
+    continues an unterminated output (finding unterminated-output-glues-status) is a complaint too"""
     bad = []
+    oracle_script.glued = 0
     pos = 0
     total = started = finished = 0
     locked = False; pend = []          # blocks finished under the console lock: (k, code, shown, f, t)
@@ -62,6 +64,9 @@ def oracle_script(s, out):
         """one finished command, printed directly; raw = the command produced output (before ANSI stripping)"""
         nonlocal owed
         e = s.edges[k]
+        if first_owed:
+            oracle_script.glued += 1
+            if strict: bad.append('the status line of edge %d continues the unterminated output before it at byte %d: %r' % (k, pos, out[max(0, pos - 20):pos + 20])); return False
         if not expect(b'[%d/%d] ' % (f, t) + (e.desc or e.cmd) + b'\n', 'status line of edge %d' % k): return False
         return body(k, code, raw, shown, first_owed)
     def body(k, code, raw, shown, ow):
@@ -490,7 +495,9 @@ def run(ctx):
             for s_, t in bad: ctx.violation('correspondence-replay', 'component status\n' + s_.text(), t)
             for s_, out, irc in good:
                 if oracle_eligible(s_):
-                    for t in oracle_script(s_, out)[:1]: ctx.violation('blocks', 'component status\n' + s_.text(), t)
+                    for t in oracle_script(s_, out, strict=(FINDING_GLUE not in known))[:1]: ctx.violation('blocks', 'component status\n' + s_.text(), t)
+                    if oracle_script.glued and FINDING_GLUE in known:
+                        ctx.known_finding('id=%s the status line of a later command continues the unterminated output of an earlier one (replayed sequence %s)' % (FINDING_GLUE, s_.sid))
             ctx.cov.update(evaluations=1, distinct_nontrivial=1, rule='replay of one call sequence')
         else:
             ctx.violation('replay-unsupported', text, 'real-binary replays carry their manifest and command line: run them by hand', no_input=True)
@@ -526,11 +533,12 @@ def run(ctx):
     t_corr = time.time() - t0
 
     # ---- (ii) block oracle on the real StatusPrinter's bytes
-    norc = 0; samples = []
+    norc = 0; samples = []; glued_seq = 0
     for s, out, irc in good:
         if not oracle_eligible(s): continue
         norc += 1
         b = oracle_script(s, out)
+        if oracle_script.glued: glued_seq += 1
         if b: ctx.violation('blocks', 'component status\n' + s.text(), 'real StatusPrinter output is not the expected sequence of blocks: ' + b[0])
         if len(samples) < 2 and len(s.calls) > 6: samples.append({'script': s.sid, 'calls': [' '.join(str(x)[:40] for x in c) for c in s.calls[:10]], 'stdout': repr(out[:300])})
 
@@ -564,5 +572,5 @@ def run(ctx):
                         'non-trivial = sequences with a failing command or a console-pool command; real binary: mixes -j1..4 / unterminated / console lock with file '
                         'synchronisation / restat prune, styles default, NINJA_STATUS, --status, --quiet',
                    samples=samples or ['(none)'],
-                   distribution=dict(st, block_oracle_sequences=norc, elide_cases=20000 if quick else 200000, strip_cases=20000 if quick else 200000,
+                   distribution=dict(st, block_oracle_sequences=norc, block_oracle_sequences_with_glued_line=glued_seq, elide_cases=20000 if quick else 200000, strip_cases=20000 if quick else 200000,
                                      real_binary=facts, seconds_correspondence=round(t_corr, 1), seconds_real_binary=round(t_real, 1), impl_flavor=flavor))
